@@ -121,15 +121,23 @@ class Check:
     build_log = (out + err)[-4000:]
     if not build_ok and re.search(r'unknown (command|executable)|No such file or directory: .lake', build_log):
       raise InfraError('lake unavailable: ' + build_log[-400:])
-    # source grep over the transitive closure = all of VizierModel (cheap)
+    # source grep over the import closure of the property's modules (within VizierModel)
     grep_hits = []
-    for root, _, files in os.walk(os.path.join(LEAN_DIR, 'VizierModel')):
-      for f in files:
-        if f.endswith('.lean'):
-          p = os.path.join(root, f)
-          src = strip_lean_comments(open(p).read())
-          for m in FORBIDDEN.finditer(src):
-            grep_hits.append('%s: %s' % (os.path.relpath(p, LEAN_DIR), m.group(0).strip()))
+    closure, todo = set(), list(mods)
+    while todo:
+      m = todo.pop()
+      if m in closure or not m.startswith('VizierModel'):
+        continue
+      closure.add(m)
+      p = os.path.join(LEAN_DIR, *m.split('.')) + '.lean'
+      if not os.path.exists(p):
+        continue
+      src = strip_lean_comments(open(p).read())
+      for mm in re.finditer(r'^\s*import\s+([\w.]+)', src, re.M):
+        todo.append(mm.group(1))
+      for mm in FORBIDDEN.finditer(src):
+        grep_hits.append('%s: %s' % (os.path.relpath(p, LEAN_DIR), mm.group(0).strip()))
+    self.coverage_extra['lean_modules_in_closure'] = sorted(closure)
     axioms = {}
     if build_ok:
       os.makedirs(os.path.join(LEAN_DIR, 'Audit'), exist_ok=True)
